@@ -315,7 +315,7 @@ func (l *loaded) replayModel(h *Harness, params []int, model map[string]string) 
 		var st *State
 		e, st = l.newEngine(h, params, model)
 		defer func() { e.world.close() }()
-		e.runFrame(l.pkg.Func(h.Func), nil, st)
+		e.harnessFaults(h.Prop, e.runFrame(l.pkg.Func(h.Func), nil, st))
 	})
 	return e, err
 }
@@ -341,7 +341,7 @@ func runJob(h *Harness, params []int, tier string) *JobResult {
 	msg := guard(func() {
 		var st *State
 		e, st = l.newEngine(h, params, nil)
-		e.runFrame(l.pkg.Func(h.Func), nil, st)
+		e.harnessFaults(h.Prop, e.runFrame(l.pkg.Func(h.Func), nil, st))
 	})
 	if e != nil {
 		defer e.world.close()
